@@ -91,11 +91,15 @@ containment("_messages:_unpack_bind_request", options=_PO,
 # hints: the k-th element starts at the sum of the lengths of the elements before it (flattened form of the nested rest_of)
 _OFF = lambda k: " + ".join("tlv_len(%s)" % _E(i) for i in range(k))
 _FLAT = ["%s == drop(%s, %s)" % (_E(k), _V, _OFF(k)) for k in range(2, 6)]
-containment("_messages:_unpack_search_request", options=_PO,
+# the reader's view after the k-th component is the ghost reader_view_k; the chain v_k == rest_of(v_{k-1}) says the components are
+# consecutive elements, each clause being a single step for the solver
+_CH = {"v%d" % k: "reader_view_%d" % k for k in range(1, 7)}
+containment("_messages:_unpack_search_request", options=_PO, witness=_CH, witness_sorts={w: "bytes" for w in _CH},
             ensures=["result.message_id == message_id",
-                     "result.base_object == unutf8(content_of(%s))" % _E(0),
-                     "result.scope == tc(content_of(%s))" % _E(1), "result.deref_aliases == tc(content_of(%s))" % _E(2),
-                     "result.size_limit == tc(content_of(%s))" % _E(3), "result.time_limit == tc(content_of(%s))" % _E(4)])
-# (typesOnly, the sixth element, is not stated here: the five-fold nested rest_of term is beyond what the solvers decide in the budget;
-#  that TRUE is any non-zero octet is proved at the reader, C07: ASN1Reader.read_boolean)
+                     "v1 == rest_of(%s)" % _V, "v2 == rest_of(v1)", "v3 == rest_of(v2)", "v4 == rest_of(v3)", "v5 == rest_of(v4)", "v6 == rest_of(v5)",
+                     "result.base_object == unutf8(content_of(%s))" % _V,
+                     "result.scope == tc(content_of(v1))", "result.deref_aliases == tc(content_of(v2))",
+                     "result.size_limit == tc(content_of(v3))", "result.time_limit == tc(content_of(v4))",
+                     # BOOLEAN: FALSE is the octet 00, TRUE any other octet (X.690 8.2.2)
+                     "implies(len(content_of(v5)) == 1, result.types_only == (content_of(v5)[0] != 0))"])
 
